@@ -55,7 +55,7 @@ CHECKS = {
          'Generated-input search over structures (loops, nested separators up to four region levels, forests, unary factors), potentials, totals (incl. re-assigned on the object) and sweep counts.',
          'Exactness clause uses lexicographically ordered distinct cliques with potentials on the maximal cliques (the premise of the statement); FactorGraph.project is only queried on covered attributes.'),
  'C17': ('Hypothesis-generated region structures / potentials / damping vs an independent dual solver (L-BFGS+BFGS) of the convexified free energy on an independently built region closure; metamorphic re-listing of cliques for non-converging runs',
-         'Generated-input search; conditional on the convergence the statement presupposes (primal feasibility <= 1e-9*total within 20000 sweeps, ~99% of cases on the current tree; the rest are inconclusive unless the alphabetically re-listed problem converges, which is a violation).',
+         'Generated-input search; conditional on the convergence the statement presupposes (primal feasibility <= 1e-9*total within 5000 sweeps, ~99% of cases on the current tree; a run that is stationary but inconsistent, or that converges only when its cliques are re-listed alphabetically, is a violation; the rest is inconclusive).',
          'Trusts the dual solver only when its gradient norm is < 1e-8 (otherwise inconclusive).'),
  'C19': ('Hypothesis-generated public datasets / measurement sets / totals vs validity predicate on the weights, C09 reference total, and loss recomputed from weighted contingency tables (metamorphic: never worse than uniform weights)',
          'Generated-input search with a fresh PublicInference per case; includes degenerate shapes (single-cell projections, exact-fit starts, conflicting answers, a clique measured twice with different noise) that drive the line search to its corner cases.',
